@@ -30,7 +30,9 @@ def main():
         print(out)
         return 2
     try:
-        demo_dir = os.path.join(wt, "_demo")
+        # same relative position as in the agent's worktree (build scripts use relative paths)
+        demo_dir = os.path.join(wt, "mutations", os.path.basename(mdir))
+        os.makedirs(os.path.dirname(demo_dir), exist_ok=True)
         shutil.copytree(mdir, demo_dir)
 
         def run_demo(tag):
@@ -60,8 +62,22 @@ def main():
             res["mutated_build_rc"] = rc
             passes = []
             for _ in range(2):
-                rc, out = sh("ctest --test-dir %s/_b -j4 --timeout 900 2>&1 | grep -E 'tests passed|tests failed'" % wt)
-                passes.append(out.strip())
+                rc, out = sh("ctest --test-dir %s/_b -j4 --timeout 900 2>&1" % wt)
+                import re
+                failed = re.findall(r"^\s*\d+ - (\S+) \(", out, re.M)
+                still = []
+                for t in failed:
+                    # the suite has load-sensitive tests (test_wsd timing, test_io's fixed port):
+                    # a test counts as failing only if it also fails alone, three times
+                    ok1 = False
+                    for _ in range(3):
+                        rc1, _o = sh("ctest --test-dir %s/_b -R '^%s$' --timeout 900 2>&1 | grep -q '100%% tests passed'" % (wt, t))
+                        if rc1 == 0:
+                            ok1 = True
+                            break
+                    if not ok1:
+                        still.append(t)
+                passes.append(("100%% tests passed (failed under load but pass alone: %s)" % ",".join(failed)) if not still else "FAILED: " + ",".join(still))
             res["mutated_ctest"] = passes
             res["demo_mutated"] = run_demo("mutated")
     finally:
